@@ -41,3 +41,40 @@ func HarnessC13CodegenFailure() {
 		verifrt.Assert(!verifrt.EnvExists(outDir+"/gen"), "a failed compilation leaves generated files behind (the gen directory with IL / assembly files)")
 	}
 }
+
+// HarnessC14ImportResolution: a project on the (stub / real) file system in which a module path could be satisfied by
+// two files - p/util is <root>/util.fer, and a shadowing <root>/left/util.fer sits next to one of its importers.
+// main imports left/a and right/b, both import p/util.  The real module scheduler (goroutines, import resolution
+// through ImportPathToFilePath, file reads) runs under every schedule with at most two delays: the file that becomes
+// module p/util is the same - the one under the project root - whichever importer happens to request it first.
+func HarnessC14ImportResolution() {
+	root := os.TempDir() + "/zz-verif-c14-proj"
+	defer os.RemoveAll(root)
+	verifrt.EnvFile(root+"/util.fer", "fn Val() -> i32 { return 7; }\n")
+	verifrt.EnvFile(root+"/left/util.fer", "fn Val() -> i32 { return 100; }\n")
+	verifrt.EnvFile(root+"/left/a.fer", "import \"p/util\";\nfn A() -> i32 { return util::Val(); }\n")
+	verifrt.EnvFile(root+"/right/b.fer", "import \"p/util\";\nfn B() -> i32 { return util::Val(); }\n")
+	mainSrc := "import \"p/left/a\";\nimport \"p/right/b\";\nfn main() { }\n"
+	verifrt.EnvFile(root+"/main.fer", mainSrc)
+	ctx := context_v2.New(&context_v2.Config{Extension: ".fer", ProjectName: "p", ProjectRoot: root}, false)
+	ctx.EntryPoint = root + "/main.fer"
+	scope := table.NewSymbolTable(ctx.Universe)
+	ctx.AddModule("p/main", &context_v2.Module{ImportPath: "p/main", FilePath: root + "/main.fer", Type: context_v2.ModuleLocal, Phase: phase.PhaseNotStarted,
+		Content: mainSrc, ModuleScope: scope, CurrentScope: scope, Artifacts: map[string]any{}})
+	ctx.EntryModule = "p/main"
+	p := New(ctx)
+	verifrt.DelayBound(2)
+	verifrt.SingleProc()
+	verifrt.StepBudget(40000000, "module scheduling does not finish (deadlock or livelock)")
+	verifrt.Threads(func() {
+		p.processModule("p/main", nil)
+		p.wg.Wait()
+	})
+	verifrt.StepBudget(0, "")
+	verifrt.Assert(!ctx.HasErrors(), "CALIBRATION: the project does not parse without errors")
+	m, ok := ctx.GetModule("p/util")
+	verifrt.Assert(ok && m != nil, "CALIBRATION: module p/util was not loaded")
+	if ok && m != nil {
+		verifrt.Assert(m.FilePath == root+"/util.fer", "the file that becomes module p/util depends on which importer requested it first (the generated code then depends on the schedule)")
+	}
+}
